@@ -248,3 +248,11 @@ mod tests {
         assert_ne!(a1, b1);
     }
 }
+
+// Verification hook (compiled only by the Kani compiler, which sets `cfg(kani)`):
+// gives out-of-tree harnesses access to the private `primitive_type_def_example`.
+#[cfg(kani)]
+mod verif_kani {
+    use super::*;
+    include!(concat!(env!("SCALE_TYPEGEN_VERIF_DIR"), "/kani/scale_value.rs"));
+}
